@@ -82,6 +82,8 @@ func derivesFrom(v, src ssa.Value) bool {
 			return visit(x.X, d+1)
 		case *ssa.MakeInterface:
 			return visit(x.X, d+1)
+		case *ssa.TypeAssert:
+			return visit(x.X, d+1)
 		case *ssa.Convert:
 			return visit(x.X, d+1)
 		case *ssa.UnOp:
